@@ -9,9 +9,14 @@
    (fan topology A-{B_k}-D, one part per branch) and executed on real ChannelManagers, together with seeded
    random scripts over line / fan / parallel-channel topologies (MPP, retries, keysend, abandon, duplicate
    ids, disconnections, held events, snapshots and restarts).
+   The payer's first-hop channels may persist asynchronously (PaySendMCw*: what every first hop answers at send time --
+   sent / monitor write in flight / refused / parked in the holding cell --, completions in any order, the holding-cell
+   release with its fail-back branch; families `wipref`, `hcfail`, random schedules with asynchronous persistence).
 3. TLC validates every recorded run against PaySend.tla (PaySendTrace.tla).
+4. The BOLT-12 payment flow (OfferFlow.tla, engine offernet) is a part of its own (offer_common.run_part).
 """
 import pay_common as pc
+import offer_common
 
 
 def pick(got, rng):
@@ -26,6 +31,10 @@ def pick(got, rng):
     st = [s for s in f if "stale-readd" in s["feat"] or ("stale-recreate" in s["feat"] and "chain-claim" in s["feat"])]
     rng.shuffle(st)
     rep = rep + st[:120]
+    # asynchronous persistence: a part whose write is in flight beside a refused one, holding-cell releases
+    asy = [s for s in f if {"wip+refused", "hc-failed", "hc-sent", "retry-wip", "hc-retry"} & set(s["feat"])]
+    rng.shuffle(asy)
+    rep = rep + asy[:160]
     c = [s for s in got if not s.get("feat") and has(s, "deliver")]
     d = [s for s in got if not s.get("feat") and not has(s, "deliver")]
     for x in (f, c, d):
@@ -44,7 +53,7 @@ def _sent_as_failed(r, k, recs):
     if r["ev"] == "event" and r.get("kind") == "PaymentSent" and \
             sum(1 for x in recs if x["run"] == r["run"] and x["ev"] == "send" and x["pid"] == r["pid"]) == 1:
         return [{"ev": "event", "node": r["node"], "kind": "PaymentFailed", "pid": r["pid"], "hash": r["hash"],
-                 "reason": "x", "run": r["run"], "seq": r["seq"]}]
+                 "reason": "x", "pend": 0, "cell": 0, "run": r["run"], "seq": r["seq"]}]
 
 
 def _claim_dropped(r, k, recs):
@@ -135,6 +144,60 @@ def _forgotten_with_live_htlc(r, k, recs):
             return [r]
 
 
+def _one_send(recs, run):
+    sends = [x for x in recs if x["run"] == run and x["ev"] == "send"]
+    return sends[0] if len(sends) == 1 and sends[0]["res"] == "ok" and not sends[0]["auto"] else None
+
+
+def _failed_with_write_in_flight(r, k, recs):
+    # PaymentFailed is moved in front of the completion of the monitor write that holds one of the payment's parts back
+    # (the part is offered to the peer right after the completion)
+    if r["ev"] == "complete" and r["node"] == 0 and k + 1 < len(recs):
+        nx = recs[k + 1]
+        snd = _one_send(recs, r["run"])
+        later = [x for x in recs[k + 1:] if x["run"] == r["run"]]
+        before = [x for x in recs[:k] if x["run"] == r["run"]]
+        pf = [x for x in later if x["ev"] == "event" and x.get("kind") == "PaymentFailed"]
+        if snd and pf and nx["ev"] == "msg" and nx["kind"] == "update_add_htlc" and nx["from"] == 0 and nx["hash"] == snd["hash"] \
+                and nx["run"] == r["run"] and pf[0]["pid"] == snd["pid"] \
+                and not any(x["ev"] == "restart" for x in before + later) \
+                and not any(x["ev"] == "event" and x.get("kind") in ("PaymentFailed", "PaymentSent") for x in before):
+            return [dict(pf[0], pend=0), r]
+
+
+def _failed_still_listed(r, k, recs):
+    # the payer's own channels still list an HTLC of the payment when PaymentFailed is handled
+    if r["ev"] == "event" and r.get("kind") == "PaymentFailed" and r.get("pend") == 0 and _one_send(recs, r["run"]) \
+            and _one_send(recs, r["run"])["pid"] == r["pid"]:
+        r["pend"] = 1
+        return [r]
+
+
+def _held_part_vanishes(r, k, recs):
+    # the failure of a part that never left the payer (freed from the holding cell, unsendable) goes unreported: the
+    # payment stays pending although none of its HTLCs is
+    if r["ev"] == "event" and r.get("kind") == "PaymentPathFailed" and not r["initial"] and r["node"] == 0 and len(r["path"]) > 0:
+        snd = _one_send(recs, r["run"])
+        mine = [x for x in recs if x["run"] == r["run"]]
+        if snd and snd["pid"] == r["pid"] and len(snd["parts"]) == 1 and mine[-1]["ev"] == "quiet" \
+                and not any(x["ev"] == "msg" and x["kind"] == "update_add_htlc" and x["from"] == 0 and x["hash"] == r["hash"] for x in mine) \
+                and not any(x["ev"] == "restart" for x in mine):
+            return []
+
+
+def _held_part_vanishes_silently(r, k, recs):
+    m = _held_part_vanishes(r, k, recs)
+    if m is None:
+        return None
+    # `mutate` splices the returned records in place of record k only: the PaymentFailed of the payment is turned into an
+    # event the specification ignores (in place: this corruption is the last one of the list)
+    for x in recs:
+        if x["run"] == r["run"] and x["ev"] == "event" and x.get("kind") == "PaymentFailed" and x["pid"] == r["pid"]:
+            x["kind"] = "PaymentForwarded"
+            x["fee"] = 0
+    return []
+
+
 # Recorded finding (not part of the default runs: the engine restarts from a stale snapshot only if the node
 # was idle when it was taken): the snapshot is taken while payment 2 waits in the holding cell of the channel
 # (send_payment returned Ok); it is sent afterwards and becomes claimable at the recipient; the payer restarts
@@ -173,21 +236,32 @@ SELFTESTS = [("second-PaymentSent", _second_sent), ("PaymentSent-reported-as-fai
              ("PaymentFailed-before-last-failure", _failed_early),
              ("onchain-claim-without-PaymentSent", _onchain_claim_unreported),
              ("PaymentFailed-with-HTLC-output-unspent", _failed_with_output_unspent),
-             ("forgotten-after-stale-restart-with-live-HTLC", _forgotten_with_live_htlc)]
+             ("forgotten-after-stale-restart-with-live-HTLC", _forgotten_with_live_htlc),
+             ("PaymentFailed-before-write-of-a-part-completes", _failed_with_write_in_flight),
+             ("PaymentFailed-with-HTLC-still-listed-by-the-channel", _failed_still_listed),
+             ("held-part-vanishes-payment-pending-for-good", _held_part_vanishes_silently)]
 
 
 def run(tier, seed):
     thorough = tier == "thorough"
     return pc.run_check(
         "C03", tier, seed,
-        mc_cfgs=["PaySendMC.cfg", "PaySendMC2.cfg", "PaySendMCs.cfg"] if not thorough
-        else ["PaySendMCt.cfg", "PaySendMC2t.cfg", "PaySendMC3t.cfg", "PaySendMCr2.cfg", "PaySendMCst.cfg", "PaySendMCs3t.cfg"],
+        mc_cfgs=["PaySendMC2.cfg", "PaySendMCw.cfg", "PaySendMCw2.cfg", "PaySendMCs.cfg", "PaySendMC.cfg"] if not thorough
+        else ["PaySendMCt.cfg", "PaySendMC2t.cfg", "PaySendMC3t.cfg", "PaySendMCr2.cfg", "PaySendMCst.cfg", "PaySendMCs3t.cfg",
+              "PaySendMCwt.cfg", "PaySendMCw2.cfg"],
+        mc_mutants=["PaySendMCw_mut_forget.cfg", "PaySendMCw_mut_reuse.cfg", "PaySendMCw_mut_drop.cfg"],
+        families=[("wipref", pc.wipref_script, 1500 if thorough else 220), ("hcfail", pc.hcfail_script, 1500 if thorough else 220),
+                  ("rand-async", lambda rng: pc.with_async(pc.random_send_script(rng), rng), 3000 if thorough else 260)],
+        extra_parts=[("bolt12-offer-flow", offer_common.run_part)],
+        need_feat=["wip+refused", "hc-failed", "hc-sent", "retry-wip"],
         compile_fn=lambda s, rng, consts: pc.compile_send_script(s, rng),
         random_fn=lambda rng, consts: pc.random_send_script(rng),
-        n_tlc=7500 if thorough else 800, n_rand=12000 if thorough else 900,
+        n_tlc=9000 if thorough else 1000, n_rand=12000 if thorough else 800,
         need={"ev_PaymentSent": 50, "ev_PaymentFailed": 50, "ev_PaymentPathFailed": 50, "restart": 30, "send_dup": 20,
               "send_multipart": 50, "runs_with_repeated_PaymentSent": 3, "runs_with_repeated_PaymentFailed": 3, "restart_stale": 100, "pathfailed_hop3": 20, "quiet": 100,
-              "chain_commitment": 100, "chain_htlc_claimed": 20, "chain_htlc_timeout": 20, "quiet_chain_settled": 100},
+              "chain_commitment": 100, "chain_htlc_claimed": 20, "chain_htlc_timeout": 20, "quiet_chain_settled": 100,
+              "persist": 300, "complete": 300, "config": 100, "pathfailed_never_offered": 30,
+              "pathfailed_initial_while_write_in_flight": 30},
         selftests=SELFTESTS, pick=pick, probes=PROBES,
         assumptions=pc.COMMON_ASSUMPTIONS + [
             "the channel named by PaymentPathFailed is accepted if it is the hop on which the failing node received the "
